@@ -110,14 +110,14 @@ def _program(spec: EnumSpec, pname, tier, deep):
     let a = nd_usize();
     let b = nd_usize();
     let mode = nd_u8();
-    vassume(a <= C && b <= C && a + b <= C && mode < 3);
+    vassume(a <= C && b <= C && a + b <= C && mode < 4);
     let mut i = 0;
     while i < a { let r = it.next(); check_item(&r, Some(lo)); lo += 1; i += 1; }
     let mut j = 0;
     while j < b { let r = it.next_back(); hi -= 1; check_item(&r, Some(hi)); j += 1; }
     check_len(&it, lo, hi);
-    if mode == 1 { let r = it.nth(C); check_item(&r, None); lo = hi; }          // front cursor overshoots and freezes
-    if mode == 2 { let r = it.nth_back(C); check_item(&r, None); hi = lo; }     // back cursor overshoots and freezes
+    if mode == 1 || mode == 3 { let r = it.nth(C); check_item(&r, None); lo = hi; }          // front cursor overshoots and freezes
+    if mode == 2 || mode == 3 { let r = it.nth_back(C); check_item(&r, None); hi = lo; }     // back cursor overshoots and freezes
     check_len(&it, lo, hi);
     let o1 = step(&mut it, &mut lo, &mut hi);
     let mut c = it.clone();
@@ -133,7 +133,7 @@ def _program(spec: EnumSpec, pname, tier, deep):
     hs.append(Harness(name="h_any_state", body=body, unwind=C + 3, kind="symbolic",
                       desc="from EVERY cursor state reachable through the public API (a x next, b x next_back, optional overshoot "
                            "from either end) two more symbolic ops (+1 on a clone), every n: usize; COUNT=%d" % C,
-                      bound={"prefix": "a+b<=COUNT, overshoot in {none,front,back}", "ops": 2, "n": "all of usize", "COUNT": C},
+                      bound={"prefix": "a+b<=COUNT, overshoot in {none,front,back,both}", "ops": 2, "n": "all of usize", "COUNT": C},
                       min_covers=3, functions=fns))
     # ---- adapters built on nth
     body = """    use strum::IntoEnumIterator;
@@ -208,6 +208,7 @@ def specs(tier, rng):
 def build(tier, seed):
     rng = mk_rng(seed, "C05")
     S = specs(tier, rng)
+    specs_cache[(tier, seed)] = S
     programs = []
     for i, s in enumerate(S):
         p = _program(s, "p%03d" % i, tier, True)
@@ -228,3 +229,139 @@ def build(tier, seed):
         "outside": ["histories longer than the stated depth under E1 (covered by E2's inductive step when E2 applies)",
                     "enums outside the corpus"],
     }
+
+
+# ----------------------------------------------------------------------------- E2: MIR -> SMT
+
+WEEK_TRACES = {
+    # the repository's own iterator test sequences (strum_tests/tests/enum_iter.rs), transcribed for the 7-variant enum E7
+    "take_from_both_sides_test": [("next", None, "Sun"), ("next_back", None, "Sat"), ("next_back", None, "Fri"), ("next", None, "Mon"),
+                                  ("next", None, "Tue"), ("next", None, "Wed"), ("next_back", None, "Thu"), ("next", None, None), ("next_back", None, None)],
+    "take_from_both_sides_test2": [("next", None, "Sun"), ("next_back", None, "Sat"), ("next_back", None, "Fri"), ("next", None, "Mon"),
+                                   ("next", None, "Tue"), ("next", None, "Wed"), ("next", None, "Thu"), ("next_back", None, None), ("next", None, None)],
+    "take_nth_test": [("next_back", None, "Sat"), ("next_back", None, "Fri"), ("next_back", None, "Thu"), ("nth", 2, "Tue"), ("nth", 1, None),
+                      ("next", None, None), ("next_back", None, None)],
+    "len_sequence": [("len", None, 7), ("next", None, "Sun"), ("len", None, 6), ("next_back", None, "Sat"), ("len", None, 5)],
+}
+
+
+def e2(run, programs, tier, seed, known):
+    import mir2smt as m
+    import framework as fw
+    import driver
+    specs = [s for s in specs_cache.get((tier, seed), [])]
+    if not specs:
+        return None
+    t0 = __import__("time").time()
+    cdir = os.path.join(run.cdir, "e2")
+    os.makedirs(os.path.join(cdir, "src"), exist_ok=True)
+    with open(os.path.join(cdir, "Cargo.toml"), "w") as f:
+        f.write('[package]\nname = "sv_c05_e2"\nversion = "0.0.0"\nedition = "2021"\n[dependencies]\nstrum = { path = "%s/strum", features = ["derive"] }\n[workspace]\n' % fw.REPO)
+    import shutil
+    shutil.copy(os.path.join(fw.REPO, "Cargo.lock"), os.path.join(cdir, "Cargo.lock"))
+    src = ["#![allow(dead_code, non_camel_case_types)]"]
+    for sp in specs:
+        sp2 = __import__("copy").deepcopy(sp)
+        sp2.std_derives = []
+        src.append(render_enum(sp2))
+    with open(os.path.join(cdir, "src", "lib.rs"), "w") as f:
+        f.write("\n".join(src) + "\n")
+    env = dict(fw.ENV)
+    env["CARGO_TARGET_DIR"] = os.path.join(fw.CACHE, "e2-target")
+    mirs = {}
+    for prof, flags in (("release", ["-C", "debug-assertions=off", "-C", "overflow-checks=off"]), ("dev", ["-C", "debug-assertions=on", "-C", "overflow-checks=on"])):
+        os.utime(os.path.join(cdir, "src", "lib.rs"), None)
+        rc, out, to, _ = fw.run(["cargo", "+nightly", "rustc", "--offline", "--lib", "--", "-Zunpretty=mir"] + flags, cwd=cdir, timeout=900, env=env, log=None)
+        # stdout and stderr are merged by fw.run; the MIR is the part starting at the first `// WARNING: This output format`
+        k = out.find("// WARNING: This output format")
+        if rc != 0 or k < 0:
+            run.machinery.append("E2: could not obtain the %s MIR dump (rc=%s)" % (prof, rc))
+            with open(run.log, "a") as lf:
+                lf.write(out[-3000:])
+            return None
+        mirs[prof] = m.parse_mir(out[k:])
+    res = {"queries": 0, "nontrivial": 0, "solver_s": 0.0, "functions": set(), "samples": [], "unsupported": [], "profiles": ["release (wrapping)", "dev (overflow asserts)"],
+           "translator_validation": []}
+    for sp in specs:
+        en = [v.ident for v in sp.variants if not v.disabled]
+        dis = [v.ident for v in sp.variants if v.disabled]
+        it = sp.name + "Iter"
+        prog = next((p for p in programs if p.summary.startswith(render_enum(sp)[:40]) or (" enum %s" % sp.name) in p.summary), None)
+        for prof in ("release", "dev"):
+            try:
+                vcs = m.iterator_vcs(mirs[prof], it, en, dis, len(en))
+            except m.Unsupported as e:
+                res["unsupported"].append("%s/%s: %s" % (sp.name, prof, e))
+                continue
+            for vc in vcs:
+                v, mt, secs, detail = m.solve(vc["script"], want_model=True)
+                tw, _, secs2, _ = m.solve(vc["twin_script"])
+                res["queries"] += 2
+                res["solver_s"] += secs + secs2
+                for fn_ in vc["functions"]:
+                    res["functions"].add(fn_ + " [MIR/%s]" % prof)
+                if v == "unsat" and tw == "sat":
+                    res["nontrivial"] += 1
+                    if len(res["samples"]) < 3:
+                        res["samples"].append({"engine": "E2", "enum": sp.name, "profile": prof, "vc": vc["name"], "verdict": "unsat", "sat_twin": "sat", "solvers": detail})
+                elif v == "unsat":
+                    run.machinery.append("E2 vacuity: sat-twin of %s/%s/%s is %s" % (sp.name, prof, vc["name"], tw))
+                elif v == "sat":
+                    vals = m.model_values(mt, ["idx", "back", "n"])
+                    _e2_counterexample(run, prog, sp, prof, vc, vals, known, len(en))
+                else:
+                    run.machinery.append("E2 inconclusive: %s/%s/%s (%s)" % (sp.name, prof, vc["name"], detail))
+        # translator validation on the repository's own test sequences (7-variant enum)
+        if sp.name == "E7":
+            for prof in ("release", "dev"):
+                for tn, ops in WEEK_TRACES.items():
+                    try:
+                        m.reset_defs()
+                        goal = m.concrete_trace(mirs[prof], it, en, dis, 7, ops)
+                        v, _, secs, detail = m.solve(m.defs_text() + "(assert (not %s))" % goal)
+                        res["queries"] += 1
+                        res["solver_s"] += secs
+                        res["translator_validation"].append({"trace": tn, "profile": prof, "verdict": v})
+                        if v != "unsat":
+                            run.machinery.append("E2 translator validation failed: the encoding of %s does not reproduce the repository test %s (%s)" % (prof, tn, v))
+                    except m.Unsupported as e:
+                        res["unsupported"].append("trace %s/%s: %s" % (tn, prof, e))
+    res["functions"] = sorted(res["functions"])
+    res["wall_s"] = round(__import__("time").time() - t0, 1)
+    if res["unsupported"]:
+        run.say("NOTE: E2 could not encode: %s  (not decided by E2; the property rests on E1 for these)" % "; ".join(res["unsupported"][:4]))
+    return res
+
+
+def _e2_counterexample(run, prog, sp, prof, vc, vals, known, C):
+    """replay an E2 model through the public API natively (h_any_state: prefix reaching the cursor state, then the op)"""
+    import framework as fw
+    import driver
+    import struct
+    idx, back, n = vals.get("idx", 0), vals.get("back", 0), vals.get("n", 0)
+    if idx + back <= C:
+        a, b, mode = idx, back, 0
+    elif idx == C and back == C:
+        a, b, mode = 0, 0, 3
+    elif idx == C:
+        a, b, mode = 0, back, 1
+    else:
+        a, b, mode = idx, 0, 2
+    op = {"nth": 2, "next": 0, "next_back": 1}.get(vc["op"], 0)
+    u64 = lambda x: struct.pack("<Q", x & (2**64 - 1))
+    vec = [u64(a), u64(b), bytes([mode]), bytes([op]), u64(n if vc["op"] == "nth" else 0), bytes([0]), u64(0), bytes([0]), u64(0)]
+    what = "E2 %s VC %s: sat at idx=%d back=%d n=%d" % (prof, vc["name"], idx, back, n)
+    if prog is None:
+        run.machinery.append(what + " (no E1 program to replay through)")
+        return
+    h = next(h for h in prog.harnesses if h.name == "h_any_state")
+    replay = fw.native_replay(run.cdir, run.pid, "%s::%s" % (prog.name, h.name), vec, run.log)
+    test = {"check": what, "vals": vec}
+    if fw.reproduces(replay):
+        driver.report(run, prog, h, test, replay, known)
+    else:
+        run.machinery.append(what + " but the public-API replay (prefix a=%d b=%d mode=%d, op=%s) does not reproduce natively: %s" % (
+            a, b, mode, vc["op"], {k: v["outcome"] for k, v in replay.items()}))
+
+
+specs_cache = {}
